@@ -457,15 +457,35 @@ def _run(prop, module, ctx: Ctx, t0, ev_path: Path) -> int:
             raise InfraError("leanchecker rejected the property module: " + (p.stdout + p.stderr)[-500:])
     ctx.driver_ok = driver_ok
     # corpus first, then correspondence + oracle on the real code
-    with quiet_stdout():
-        module.run(ctx)
+    try:
+        with quiet_stdout():
+            module.run(ctx)
+    except InfraError:
+        raise
+    except Exception as ex:  # noqa
+        # An exception that comes out of (or through) the code under test while the harness drives it means the code no
+        # longer behaves like the modelled code (changed signature, new failure): the correspondence is broken. That is
+        # not by itself a violation; the failing-input search below decides. Exceptions entirely inside the harness are
+        # infrastructure errors.
+        tb = traceback.extract_tb(ex.__traceback__)
+        in_code = any(str(REPO) in (fr.filename or "") or "/nuspacesim/" in (fr.filename or "") for fr in tb)
+        if not in_code and not isinstance(ex, (TypeError, AttributeError)):
+            raise
+        ctx.disagree(f"{prop}.harness-call-into-code-raised:{type(ex).__name__}",
+                     {"error": str(ex)[:300], "where": [f"{Path(fr.filename).name}:{fr.lineno}" for fr in tb[-4:]]})
+        ctx.notes.append("the run was cut short by an exception raised through the code under test: " + "".join(traceback.format_exception_only(type(ex), ex)).strip()[:300])
     if ctx.disagreements:
         names = sorted({d["what"] for d in ctx.disagreements})
         broken += [f"correspondence {n}" for n in names]
     if (broken or ctx.disagreements) and not ctx.violations and hasattr(module, "search"):
         # failing-input search on the real code
-        with quiet_stdout():
-            module.search(ctx)
+        try:
+            with quiet_stdout():
+                module.search(ctx)
+        except InfraError:
+            raise
+        except Exception as ex:  # noqa
+            ctx.notes.append("failing-input search cut short: " + "".join(traceback.format_exception_only(type(ex), ex)).strip()[:300])
     # ---- verdict
     known = [k for k in load_known() if k.get("property") == prop and k.get("status") == "known"]
     reported = []
